@@ -463,6 +463,11 @@ pub fn plan(property: &str, tier: &str) -> Option<CheckSpec> {
             let n1 = n1 + n4;
             let n1 = n1 + n3;
             b.add_batch(many_ids_programs(), false, false, &rules);
+            // the tree around a full scope: spans refused with and without a local span open, then
+            // local spans, thread-safe children and events after them
+            let mut lp_rules = rules.to_vec();
+            lp_rules.push(Rule::Ctx);
+            b.add_batch(local_limit_programs(), false, false, &lp_rules);
             rule_text = format!("bounded-exhaustive generated programs ({n1} single-actor + {n2} two-actor lock-step) x every placement of 1 atomic collector cycle at a ring-push boundary x both configurations; non-trivial: a collector cycle falls between the first and last queue command");
             bound_text = format!("<= {} spans, <= {} local spans, scope depth <= 2, <= {} operations; 1 cycle placed anywhere + final flush", g.max_spans, g.max_locals, g.max_len);
         }
@@ -664,8 +669,10 @@ pub fn plan(property: &str, tier: &str) -> Option<CheckSpec> {
             }
             let lp = local_limit_programs();
             let n2 = lp.len();
+            let mut lp_rules = rules.to_vec();
+            lp_rules.push(Rule::Ctx);
             for pr in lp {
-                b.add("SEQ", pr, false, None, &rules, false);
+                b.add("SEQ", pr, false, None, &lp_rules, false);
             }
             rule_text = format!("{n1} queue-full episodes (real 10240-slot ring filled leaving 0/1/2 free slots, then every sequence of operations from {{finish child, end scope, cancel, finish root, new trace, attach}}, recovery interleaved with the collector's first pops, a fresh trace after the drain) x both configurations x all schedules up to the preemption bound; {n2} per-scope span-limit programs");
             bound_text = format!("<= {} operations during the episode, preemptions <= {bound}, collector yields at its first 3 pops and between receivers", if quick { 2 } else { 3 });
@@ -737,7 +744,14 @@ pub fn plan(property: &str, tier: &str) -> Option<CheckSpec> {
             for s in ["S1+rt", "S3+w+rt", "S7+rt"] {
                 b.add("SCHED", scenario(s, 2).unwrap(), false, Some(bound), &rules, true);
             }
-            rule_text = format!("{n1} hostile call sequences (no-op / unsampled / all-no-op parents / no local parent / under a local collector / re-used contexts) in three process states (no reporter, default, cancelable); {n2} re-entrant programs (every closure-taking call x calls issued from inside the closure); {n3} limit programs (4096 scopes, 10240 local spans, full ring); {n4} thread-teardown programs (calls from thread-local destructors registered before/after fastrace's own thread-locals, thread traced before or not); multi-threaded scenarios with the collector parked at each of its points");
+            // set_reporter called again while a cycle is in progress, while report() runs (also a
+            // report() that traces), and while another thread makes its first tracing call
+            for s in ["SR1", "SR1+w", "SR1+rt", "SR2", "SR2+w", "SR2+rt"] {
+                for c in [false, true] {
+                    b.add("SCHED", scenario(s, 1).unwrap(), c, Some(2), &rules, true);
+                }
+            }
+            rule_text = format!("{n1} hostile call sequences (no-op / unsampled / all-no-op parents / no local parent / under a local collector / re-used contexts) in three process states (no reporter, default, cancelable); {n2} re-entrant programs (every closure-taking call x calls issued from inside the closure); {n3} limit programs (4096 scopes, 10240 local spans, full ring); {n4} thread-teardown programs (calls from thread-local destructors registered before/after fastrace's own thread-locals, thread traced before or not); multi-threaded scenarios with the collector parked at each of its points; set_reporter called again at every point of a cycle (an actor that waits for a mutex inside that call is left waiting for real while the others are scheduled)");
             bound_text = format!("call sequences <= {}; scenarios: preemptions <= {bound}", g.max_len);
             assumptions.push("harness built with debug assertions and overflow checks on (as the test suite's dev profile); a call that does not return within 5 s counts as blocked".into());
         }
